@@ -12,7 +12,7 @@ import numpy as np
 
 from harness import tlc
 from harness.core import Machinery
-from harness.gnpy_util import udb, EX, TD, INF
+from harness.gnpy_util import udb, EX, TD, INF, NONE
 from harness.record import Recording, snapshot as snapshot_of      # noqa: F401 (snapshot_of is used by the checks)
 
 H_PLANCK = 6.62607015e-34
@@ -242,6 +242,10 @@ def fiber_event(ev, raman_on, max_ch=12, with_acc=True, contrib=None, declared=N
         n_group = float(getattr(p, '_n1', 1.468))
         e.update({'cfg': 1, 'latCfg': ns(p.length * n_group / 299792458.0),
                   'pmdCfg': iround((float(p.pmd_coef) * 1e15) ** 2 * p.length)})
+        # CD: a single-value dispersion without slope gives dispersion x length for every channel (whatever the reference
+        # wavelength of the fibre parameters); a dispersion table or a slope leaves the span's CD undecided (NONE)
+        disp = np.atleast_1d(np.asarray(p.dispersion, dtype=float))
+        e['cdCfg'] = cd_units(disp[0] * p.length) if disp.size == 1 and p.dispersion_slope is None else NONE
     return e
 
 
